@@ -1,6 +1,7 @@
 import TsVerif.Common.IO
 import TsVerif.Common.Tree
 import TsVerif.C17.Judge
+import TsVerif.C17.Merge
 /-!
 Driver for C17.  Reads the case stream written by `harness/src/bin/c17` and prints one line per case:
 
@@ -8,6 +9,8 @@ Driver for C17.  Reads the case stream written by `harness/src/bin/c17` and prin
   (`corr`: which port of `LossyUtf8` reproduces the implementation; `spec`: `lossySpec` vs
   `String::from_utf8_lossy`; `judge`: implementation = `lossySpec`);
 * `run render` → `<id> kind=R corr=… wf=<0|1> judge=<ok|FAIL|panic> cause=<…>`;
+* `run merge`  → `<id> kind=M corr=<ok|DIFF> wf=<ok|FAIL> capsin= capsok= ncaps= depth= err=`
+  (`mergeLayer` on the layer's capture list vs the real single-layer event stream);
 * `run hl`     → `<id> kind=H corr=… wf=<ok|FAIL> inj=<ok|FAIL> html=<ok|FAIL|panic> loc=<ok|FAIL> cause=<…>
                   nsp=<spans> ninj=<injections> depth=<max nesting> err=<…>`.
 -/
@@ -27,6 +30,7 @@ structure St where
   langof : List Nat := []
   injs : List Inj := []
   locals : List (Nat × Nat × Nat × Nat) := []
+  caps : List Cap := []
 
 def unhx (s : String) : Bytes := if s == "-" then [] else unhexBytes s
 
@@ -120,7 +124,23 @@ def runHl (s : St) : String :=
   let inj := judgeInjected langOf s.injs s.evs
   let loc := judgeLocals s.locals s.evs
   let ok (b : Bool) := if b then "ok" else "FAIL"
-  s!"{s.id} kind=H corr={corr} wf={ok wf} inj={ok inj} html={j} loc={ok loc} cause={cause} nsp={(spans s.evs).length} ninj={s.injs.length} nloc={s.locals.length} depth={maxDepth s.evs} err={s.err}"
+  -- is the chunk-wise normalisation also the normalisation of the whole source? (cf. `normalize_whole`)
+  let whole := decide (textOf lossySpec s.evs s.src = (lossySpec s.src).filter (· ≠ 13))
+  let bnd := (chunksOf s.evs s.src).all fun c => !endsTruncated c
+  s!"{s.id} kind=H whole={if whole then 1 else 0} charbnd={if bnd then 1 else 0} corr={corr} wf={ok wf} inj={ok inj} html={j} loc={ok loc} cause={cause} nsp={(spans s.evs).length} ninj={s.injs.length} nloc={s.locals.length} depth={maxDepth s.evs} err={s.err}"
+
+def parseCaps (s : String) : List Cap :=
+  if s == "-" then [] else (s.splitOn ",").filterMap fun t => match t.splitOn "-" with
+    | [a, b, h] => some { s := natOf a, e := natOf b, h := if h == "n" then none else some (natOf h) }
+    | _ => none
+
+/-- `run merge`: the single-layer merge model against the real event stream. -/
+def runMerge (s : St) : String :=
+  let n := s.src.length
+  let m := mergeLayer n s.caps
+  let corr := if decide (m = s.evs) then "ok" else "DIFF"
+  let wf := judgeEvents n s.evs
+  s!"{s.id} kind=M corr={corr} wf={if wf then "ok" else "FAIL"} capsin={capsIn n s.caps} capsok={capsOk n s.caps} ncaps={s.caps.length} depth={maxDepth s.evs} err={s.err}"
 
 def step (s : St) (line : String) : IO St := do
   match line.splitOn " " with
@@ -140,6 +160,8 @@ def step (s : St) (line : String) : IO St := do
   | ["run", "lossy"] => IO.println (runLossy s); return s
   | ["run", "render"] => IO.println (runRender s); return s
   | ["run", "hl"] => IO.println (runHl s); return s
+  | ["caps", c] => return { s with caps := parseCaps c }
+  | ["run", "merge"] => IO.println (runMerge s); return s
   | _ => return s
 
 def main : IO Unit := do
